@@ -507,9 +507,9 @@ def _real_one(sc):
             # the program's state changes (other completion times) and the batch is repeated with the SAME process count: the
             # executions must be built from the state of THIS call, not from whatever an earlier call's workers remember
             sc2 = dict(sc, base_stop=sc["base_stop"] + 2)
+            params2, _, coll2 = build_args(sc)          # (fresh argument objects: a one-shot collectors iterable is used up;
             W.reset({"base_stop": sc2["base_stop"], "spread": sc["spread"], "fail": None, "collectors_defined": COLLECTORS,
-                     "sleep_us": 300})
-            params2, _, coll2 = build_args(sc)          # (fresh argument objects: a one-shot collectors iterable is used up)
+                     "sleep_us": 300})                  # built first: a scenario's "used before" prelude sets the state itself)
             val2 = B.batch_run(W.BatchModel, params2, **dict(kwargs, collectors=coll2))
             want2 = sorted((norm(expected_result(s, sc2)) for s in E), key=repr)
             got2 = sorted((norm(x) for x in val2), key=repr)
